@@ -1,3 +1,4 @@
+import GenlmModel.Proofs.GenLink.Lm
 import Batteries.Tactic.Alias
 import GenlmModel.Proofs.LmLink
 import GenlmModel.Proofs.ChainRule
@@ -66,4 +67,10 @@ alias cky_lm_end_to_end := Genlm.cky_lm_end_to_end
 alias earley_lm_end_to_end := Genlm.earley_lm_end_to_end
 /-- the name-freshness hypotheses of the second normal-form conversion can always be met -/
 alias prefix_grammar_names_fresh := Genlm.cnfNamesK_prefix_E10
+/-! ## re-checked tie to the source: the definitions REGENERATED from the Python functions on every run
+(`Generated/Builders.lean` / `Generated/Folds.lean`, by `harness/translate.py`) are the hand-written models the theorems here are about -/
+alias gen_Chart_sum_eq_model := Genlm.gen_Chart_sum_eq_model
+alias gen_Chart_normalize_eq_model := Genlm.gen_Chart_normalize_eq_model
+alias gen_LM_call_eq_model := Genlm.gen_LM_call_eq_model
+alias gen_LM_call_chain_rule := Genlm.gen_LM_call_chain_rule
 end Genlm.Props.C04
